@@ -179,7 +179,7 @@ PROPERTIES = {
     "C08": {
         "functions": ["registry"] + ["metric:" + k for k in sorted(__import__("specs.metrics", fromlist=["METRICS"]).METRICS)]
                      + ["axioms:" + k for k, v in sorted(__import__("specs.metrics", fromlist=["METRICS"]).METRICS.items())
-                        if v["axioms"]],
+                        if v["axioms"]] + ["lean:Minkowski"],
         "lemmas": [],
         "files": ["opfython/math/distance.py", "opfython/utils/decorator.py", "opfython/utils/constants.py"],
         "bounded": "bounded.metrics",
@@ -193,12 +193,17 @@ PROPERTIES = {
                        "hamming, canberra, chebyshev and lorentzian from the pointwise triangle inequality of their summand "
                        "(additivity + monotonicity of SUM, sub-additivity of AMAX; for lorentzian log monotone with "
                        "log(uv) = log u + log v). ASSUMED: the listed properties of log / sqrt and of the reductions. "
-                       "CITED (not mechanised): Minkowski's inequality for euclidean, average_euclidean, hellinger, matusita, "
-                       "log_euclidean; the Soergel triangle inequality. BOUNDED (run-time contract on the real functions, "
+                       "PROVED IN LEAN 4 + MATHLIB (lemmas/Minkowski.lean, re-checked by `lean` on every run, all vector "
+                       "lengths): the triangle inequality of the closed forms of euclidean, average_euclidean, matusita, "
+                       "hellinger and log_euclidean (from Mathlib's dist_triangle on EuclideanSpace, sqrt_div / sqrt_mul, and "
+                       "log monotone with log(uv) = log u + log v); that these theorems state the closed forms of the sidecar "
+                       "table is by inspection. CITED (not mechanised): the Soergel triangle inequality. BOUNDED (run-time contract on the real functions, "
                        "length 1..6, identical / parallel / probability / zero-containing vectors): FINITENESS in floating "
                        "point (incl. the float-fragile radicand of chord and the sign of cosine / bhattacharyya up to 1 ulp), "
                        "the cited triangle inequalities, and the whole axiom table again on the compiled code.",
         "trusted": ["see C06", "axiom table fixed in /verif/specs/metrics.py",
+                    "Lean 4 kernel + Mathlib for lemmas/Minkowski.lean; the correspondence between its theorem statements and "
+                    "the closed forms of specs/metrics.py is by inspection",
                     "log: log 1 = 0, sign of log around 1, log(u/v) = log u - log v, monotone (assumed)"],
     },
     "C12": {
